@@ -762,6 +762,63 @@ def r8(db, rep):
     rep.floor("R8", "expression-bearing children of scope-pass overrides", n, 100)
 
 
+def _sibling_key(name):
+    n = name[len("visit_"):]
+    n = n.replace("async_generator", "function").replace("async_function", "function").replace("generator", "function")
+    n = n.replace("async_arrow_function", "arrow_function")
+    n = n.replace("class_expression", "class").replace("class_declaration", "class")
+    return n
+
+
+def r9(db, rep):
+    rep.rule("R9", "sibling overrides of contains()'s visitor treat the same symbols alike: the ContainsSymbol values a "
+                   "ContainsVisitor method tests for (constant lists and discriminant tests) are equal for the sync / async / "
+                   "generator variants of the same construct (arrow functions, function expressions, function declarations, "
+                   "classes) — `contains(x, Super)` must see a `super` inside an async arrow exactly as inside a plain arrow")
+    imp = [i for i in db.impls if "ContainsVisitor" in i["self"] and (i.get("trait") or "").endswith("visitor::Visitor")]
+    if not rep.anchor("R9", "impl Visitor for contains::ContainsVisitor", imp):
+        return
+    sym = db.adts.get("boa_ast::operations::ContainsSymbol")
+    if not rep.anchor("R9", "enum boa_ast::operations::ContainsSymbol", sym):
+        return
+    by_dv = {str(i): v["name"] for i, v in enumerate(sym["variants"])}
+    groups = {}
+    for item in imp[0]["items"]:
+        f = db.fns.get(item)
+        if f is None or not f.name.startswith("visit_"):
+            continue
+        syms = set()
+        for g in [f] + [x for k, x in db.fns.items() if k.startswith(f.id + "::promoted[")]:
+            for b in g.reachable():
+                for st in g.blocks[b]["s"]:
+                    r = st["r"]
+                    if r.get("k") == "agg" and r.get("adt", "").endswith("operations::ContainsSymbol"):
+                        syms.add(r.get("variant"))
+                t = g.blocks[b]["t"]
+                if t["t"] == "switch":
+                    l = op_local(t["o"])
+                    d = g.single_def(l) if l is not None else None
+                    if d and d[1] != "t" and d[2].get("k") == "discr":
+                        # discriminant of a ContainsSymbol place (self.0)
+                        base_ty = g.locals[d[2]["p"][0]]
+                        if "ContainsVisitor" in base_ty or "ContainsSymbol" in base_ty:
+                            syms |= {by_dv.get(v, v) for v in t["vals"]}
+        groups.setdefault(_sibling_key(f.name), []).append((f, syms))
+    n = 0
+    for key, members in sorted(groups.items()):
+        if len(members) < 2:
+            continue
+        n += 1
+        ref_f, ref = members[0]
+        for f, syms in members[1:]:
+            rep.ob("R9", f"{key}:{f.name}-agrees-with-{ref_f.name}", syms == ref,
+                   f"ContainsVisitor::{f.name} tests for {sorted(x for x in syms if x)} but its sibling {ref_f.name} tests for "
+                   f"{sorted(x for x in ref if x)}: Contains gives different answers for the two forms of the same construct "
+                   f"(a `super` inside an async arrow function is then invisible: no early SyntaxError, and the enclosing "
+                   f"method gets no function environment — EnginePanic `must be in a function environment`)", loc=f.span)
+    rep.floor("R9", "sibling groups in ContainsVisitor", n, 4)
+
+
 def run(db, rep, tier):
     r1(db, rep)
     r2(db, rep)
@@ -771,6 +828,7 @@ def run(db, rep, tier):
     r6(db, rep)
     r7(db, rep)
     r8(db, rep)
+    r9(db, rep)
     rep.assumptions += [
         "BytecodeEmitter::emit_* functions do not compile expressions (checked through the bytecompiler call graph)",
     ]
